@@ -68,7 +68,7 @@ ASSUMPTIONS = [
 ]
 REAL = ["Task.__call__ / parallelize / route_call(s)", "BaseRunner.run + _check_atomic_services", "ThreadRunner", "PersistentProcessRunner parent loop + persistent_process_main (worker main)", "trigger loop + cron conditions + core tasks", "SQLite orchestrator / broker / state backend / trigger store", "SQLite engine"]
 STUBBED = ["process death (simulated SIGKILL)", "multiprocessing.Process / Manager (a worker process is a simulated process with its own Pynenc object)", "thread / process scheduling", "clock", "uuid4"]
-PROBES = ["crash_fired", "crash_with_inflight_work", "recovered_pending", "recovered_running", "popped_not_claimed_at_crash", "status_written_not_requeued_at_crash", "recovery_lost_race_with_live_owner", "dead_worker_replaced", "worker_start_stalled", "stalled_workers_resumed_inside_recovery_run"]
+PROBES = ["crash_fired", "crash_with_inflight_work", "recovered_pending", "recovered_running", "popped_not_claimed_at_crash", "status_written_not_requeued_at_crash", "recovery_lost_race_with_live_owner", "dead_worker_replaced", "sub_invocations_examined", "waiting_for_stranded_sub_invocation", "worker_start_stalled", "stalled_workers_resumed_inside_recovery_run"]
 
 ROLE_NAME = {"recovery": "r1", "w": "ppr-worker"}
 BUDGET_S = 130.0  # dead-after 12 s + next cron minute (<= 60 s) + execution, with margin
@@ -368,7 +368,34 @@ def run(seed: int, params: dict, replay: dict | None = None) -> dict:
                         blocked_service["PENDING"] = True  # nobody can rescue PENDING work any more
                     if fname == "recover_running_invocations":
                         blocked_service["RUNNING"] = True
-            for inv in accepted:
+            # sub-invocations: a call made by a task body that got an invocation back is an accepted call too
+            parent_of: dict[str, str | None] = {}
+            for inv_ in last_by_inv:
+                try:
+                    pid_ = app.state_backend.get_invocation(inv_).parent_invocation_id
+                    parent_of[inv_] = str(pid_) if pid_ else None
+                except Exception:  # noqa: BLE001
+                    parent_of[inv_] = None
+
+            def root_of(i_: str) -> str | None:
+                seen_ = set()
+                while i_ is not None and i_ not in seen_:
+                    if i_ in accepted_set:
+                        return i_
+                    seen_.add(i_)
+                    i_ = parent_of.get(i_)
+                return None
+
+            accepted_set = set(accepted)
+            descendants = sorted(i_ for i_ in last_by_inv if i_ not in accepted_set and root_of(i_) is not None)
+            nonfinal_desc: dict[str, int] = {}
+            for i_ in descendants:
+                if last_by_inv[i_]["status"] not in FINALS:
+                    r_ = root_of(i_)
+                    nonfinal_desc[r_] = nonfinal_desc.get(r_, 0) + 1
+            if descendants:
+                st["probe.sub_invocations_examined"] = len(descendants)
+            for inv in accepted + descendants:
                 rec = app.orchestrator.get_invocation_status_record(inv)
                 s, o = rec.status.name, rec.runner_id
                 evs = sorted((e for e in w.tlog if e["inv"] == inv), key=lambda e: (e["ts"], e["seq"]))
@@ -402,6 +429,10 @@ def run(seed: int, params: dict, replay: dict | None = None) -> dict:
                     continue
                 elif s in AVAILABLE and queued:
                     cls = "queued-but-never-run"
+                elif s == "RUNNING" and not dead_owner and (nonfinal_desc.get(inv) or nonfinal_desc.get(root_of(inv) or "")) and any(parent_of.get(d_) == inv and last_by_inv[d_]["status"] not in FINALS for d_ in descendants):
+                    # held by a live runner and waiting for a sub-invocation that is itself stranded (reported on its own)
+                    st["probe.waiting_for_stranded_sub_invocation"] = st.get("probe.waiting_for_stranded_sub_invocation", 0) + 1
+                    continue
                 else:
                     cls = "other"
                 fault_text = f"victim {victim} ({kind}) was killed before its statement #{K} {site} (last completed {last})" if crashed else f"nothing was killed (scenario {kind})"
